@@ -402,11 +402,30 @@ def build_tag(r):
         t = mk(*attr_args)
         t.children += kids
         return t
+    if how == "insert_neg_list":
+        # several nodes inserted at once at a negative index keep their order
+        if len(kids) < 2:
+            return mk(*attr_args, *kids)
+        t = mk(*attr_args, kids[0], kids[-1])
+        t.insert(-1, list(kids[1:-1]))
+        return t
+    if how == "extend_iter":
+        t = mk(*attr_args)
+        t.extend(iter(kids))
+        return t
+    if how == "iadd_gen":
+        t = mk(*attr_args)
+        t.children += (k for k in kids)
+        return t
+    if how == "extend_map":
+        t = mk(*attr_args)
+        t.children.extend(map(lambda k: k, kids))
+        return t
     raise ValueError(how)
 
 
 HOWS = ["ctor", "ctor", "ctor_mixed", "nested", "append", "append_many", "extend", "insert", "taglist", "toggle_ws", "reassign_children",
-        "slice_children", "iadd"]
+        "slice_children", "iadd", "insert_neg_list", "extend_iter", "iadd_gen", "extend_map"]
 
 
 # ------------------------------------------------------------------ recipe helpers
